@@ -37,8 +37,17 @@ type Inner struct {
 func (in Inner) GetX() int64   { in.L.add("Inner.GetX"); return in.X }
 func (in *Inner) SetX(x int64) { in.L.add("Inner.SetX", x); in.X = x }
 
-// Rec: exported fields, an unexported one, value- and pointer-receiver
-// methods, fixed and variadic, with 0, 1, 2 and 3 results.
+// Base is embedded in Rec: its field and methods are promoted.
+type Base struct {
+	Tag string
+	BL  *Log
+}
+
+func (b Base) TagLen() int      { b.BL.add("TagLen"); return len(b.Tag) }
+func (b *Base) SetTag(s string) { b.BL.add("SetTag", s); b.Tag = s }
+
+// Rec: exported fields, an unexported one, an embedded struct, value- and
+// pointer-receiver methods, fixed and variadic, with 0, 1, 2 and 3 results.
 type Rec struct {
 	A      int64
 	B      string
@@ -46,6 +55,7 @@ type Rec struct {
 	L      *Log
 	In     Inner
 	hidden int
+	Base
 }
 
 func (r Rec) GetA() int64 { r.L.add("GetA"); return r.A }
@@ -89,15 +99,15 @@ type cSpec struct {
 
 // receivers: expression that denotes the struct in the script
 var cRecvs = []struct {
-	Name, Expr string
+	Name, Expr  string
 	Addressable bool // pointer-receiver methods and writes act on the Go value itself
 }{
-	{"value", "r", false},          // env.Define("r", rec): a copy, not addressable
-	{"pointer", "r", true},         // env.Define("r", &rec)
-	{"addressable", "r", true},     // env.DefineValue("r", reflect.ValueOf(&rec).Elem())
+	{"value", "r", false},            // env.Define("r", rec): a copy, not addressable
+	{"pointer", "r", true},           // env.Define("r", &rec)
+	{"addressable", "r", true},       // env.DefineValue("r", reflect.ValueOf(&rec).Elem())
 	{"slice-element", "rs[0]", true}, // element of a Go []Rec
 	{"pointer-field", "o.R", true},   // field R of *Outer
-	{"made", "r", true},            // r = make(Rec) in the script (with L, B, A set through member syntax)
+	{"made", "r", true},              // r = make(Rec) in the script (with L, B, A set through member syntax)
 }
 
 type cOp struct {
@@ -125,6 +135,11 @@ var cOps = []cOp{
 	{Name: "write-F", Script: "R.F = 0.5\nR.F", Write: true, Native: func(t *Rec) interface{} { t.F = 0.5; return t.F }},
 	{Name: "write-In.X", Script: "R.In.X = 6\nR.In.X", Write: true, Native: func(t *Rec) interface{} { t.In.X = 6; return t.In.X }},
 	{Name: "write-then-method", Script: "R.A = 30\nR.GetA()", Write: true, Native: func(t *Rec) interface{} { t.A = 30; return t.GetA() }},
+	{Name: "read-Tag", Script: `R.Tag`, Native: func(t *Rec) interface{} { return t.Tag }},
+	{Name: "read-Base.Tag", Script: `R.Base.Tag`, Native: func(t *Rec) interface{} { return t.Base.Tag }},
+	{Name: "write-Tag", Script: "R.Tag = \"w\"\nR.Tag", Write: true, Native: func(t *Rec) interface{} { t.Tag = "w"; return t.Tag }},
+	{Name: "TagLen", Script: `R.TagLen()`, Native: func(t *Rec) interface{} { return t.TagLen() }},
+	{Name: "SetTag", Script: "R.SetTag(\"nt\")\nR.Tag", Write: true, Native: func(t *Rec) interface{} { t.SetTag("nt"); return t.Tag }},
 	{Name: "GetA", Script: `R.GetA()`, Native: func(t *Rec) interface{} { return t.GetA() }},
 	{Name: "In.GetX", Script: `R.In.GetX()`, Native: func(t *Rec) interface{} { return t.In.GetX() }},
 	{Name: "Pair", Script: `R.Pair(3, "x")`, Native: func(t *Rec) interface{} { a, b := t.Pair(3, "x"); return list(a, b) }},
@@ -184,11 +199,11 @@ func (c cSpec) caseText() string {
 }
 
 func newRec(l *Log) Rec {
-	return Rec{A: 10, B: "b", F: 1.25, L: l, In: Inner{X: 2, L: l}, hidden: 1}
+	return Rec{A: 10, B: "b", F: 1.25, L: l, In: Inner{X: 2, L: l}, hidden: 1, Base: Base{Tag: "tag", BL: l}}
 }
 
 func recState(r *Rec) string {
-	return fmt.Sprintf("A=%d B=%q F=%v In.X=%d", r.A, r.B, r.F, r.In.X)
+	return fmt.Sprintf("A=%d B=%q F=%v In.X=%d Tag=%q", r.A, r.B, r.F, r.In.X, r.Tag)
 }
 
 func evalC(c cSpec) verdict {
@@ -206,10 +221,17 @@ func evalC(c cSpec) verdict {
 	if !found {
 		return verdict{class: "C/machinery", detail: "unknown receiver " + c.Recv}
 	}
+	isCall := strings.Contains(op.Script, "(")
+	copyCall := false
 	if op.Write && !addressable {
 		// a write to / a pointer-receiver method on a bound copy: whether it
-		// fails or acts on a copy is not stated
-		return verdict{undet: true, outcome: "write through a non-addressable copy"}
+		// fails or acts on a copy is not stated.  For a method call one thing
+		// is: if it is called at all it is called with exactly the supplied
+		// arguments.
+		if !isCall || strings.HasPrefix(op.Name, "write") {
+			return verdict{undet: true, outcome: "write through a non-addressable copy"}
+		}
+		copyCall = true
 	}
 
 	// the twin: Go's own semantics
@@ -244,7 +266,7 @@ func evalC(c cSpec) verdict {
 	case "made":
 		e.DefineType("Rec", reflect.TypeOf(Rec{}))
 		e.Define("thelog", log)
-		pre = "r = make(Rec)\nr.A = 10\nr.B = \"b\"\nr.F = 1.25\nr.L = thelog\nr.In.X = 2\nr.In.L = thelog\n"
+		pre = "r = make(Rec)\nr.A = 10\nr.B = \"b\"\nr.F = 1.25\nr.L = thelog\nr.In.X = 2\nr.In.L = thelog\nr.Tag = \"tag\"\nr.BL = thelog\n"
 	}
 	val, err, pan := execScript(e, pre+c.script())
 	if c.Recv == "made" && err == nil && pan == "" {
@@ -277,6 +299,12 @@ func evalC(c cSpec) verdict {
 	}
 	if pan != "" {
 		return fail("panic", "panic escaped vm.Execute (Debug:false): "+pan)
+	}
+	if copyCall {
+		if err == nil && strings.Join(log.Calls, " ") != strings.Join(tlog.Calls, " ") {
+			return fail("arguments", fmt.Sprintf("pointer-receiver method on a copy: methods were called as %v, Go itself calls %v", log.Calls, tlog.Calls))
+		}
+		return v
 	}
 	if err != nil {
 		return fail("error", fmt.Sprintf("the script failed: %v (Go itself yields %s)", err, describeIface(want)))
